@@ -82,6 +82,14 @@ def response_hazards() -> Iterator[bytes]:
                 + rr(nm(b"pending", b"_c", b"_tcp", b"local"), 33, 0x8001, 120, struct.pack(">HHH", 0, 0, 80) + nm(h, b"local"))
             yield D.header(0x8400, 0, 1, 0, 0) + rr(nm(h, b"local"), 1, 0x8001, 120, bytes([10, 0, 0, 77]))
             yield D.header(0x8400, 0, 1, 0, 0) + rr(nm(b"h1", b"local"), 47, 0x8001, 120, nm(h, b"local") + b"\x00\x01\x40")
+    # labels mixing invalid bytes (3 bytes each once replaced) with valid 2- and 3-byte characters, re-encoded length around 63/64
+    for k in range(0, 22):
+        for ch, w_ in (("é".encode(), 2), ("€".encode(), 3)):
+            for m in range(1, 32):
+                wire_len, re_len = k + w_ * m, 3 * k + w_ * m
+                if wire_len <= 63 and 61 <= re_len <= 66:
+                    h = b"\xff" * k + ch * m
+                    yield D.header(0x8400, 0, 1, 0, 0) + rr(nm(b"_b", b"_tcp", b"local"), 12, 1, 4500, nm(h, b"_b", b"_tcp", b"local"))
     # valid UTF-8, every label within 63 bytes, but the whole name beyond the 255 octets a name may take on the wire (the
     # decoder counts characters): again a name that cannot be sent back
     e63 = "é".encode() * 31 + b"a"
